@@ -45,8 +45,17 @@ def gen_history(rng, case, n_ops, change_ops=True):
             if i == case.get("wide"):
                 continue
             ne = min(abs(vals[i]) * 0.2, max(abs(vals[i]) * 1e-6, errs[i] * 10 ** rng.uniform(-1, 1)))
-            errs[i] = ne
-            ops.append(["setError", i, bits(ne)])
+            if vals[i] == 0.0:
+                ne = errs[i] * 10 ** rng.uniform(-0.5, 0.5)
+            if vals[i] != 0.0 and rng.random() < 0.35:
+                # the other way to revise an uncertainty: as a fraction of the central value
+                rel = ne / abs(vals[i])
+                ne = abs(vals[i]) * float(rel)
+                errs[i] = ne
+                ops.append(["setRel", i, bits(rel)])
+            else:
+                errs[i] = ne
+                ops.append(["setError", i, bits(ne)])
         elif change_ops and r < 0.28 and nm >= 2:
             i, j = rng.sample(range(nm), 2)
             rr = rng.uniform(-0.3, 0.3) if rng.random() < 0.85 else 0.0
@@ -76,6 +85,31 @@ def gen_history(rng, case, n_ops, change_ops=True):
             ops.append(["fault"])
         else:
             ops.append(["newGroup"])
+    if change_ops and nm >= 2 and rng.random() < 0.3:
+        # deliberate scenario: two correlated sources OF ONE RESULT, the uncertainty of one of them
+        # (a negative reading if there is one) revised as a relative uncertainty, then recalculation
+        deps = {}
+        for k, nd in enumerate(case["nodes"]):
+            deps[k] = {nd[1]} if nd[0] == "var" else set() if nd[0] in ("const", "pair") else \
+                set().union(*[deps[j] for j in nd[2:]])
+        joint = [n for n in qn if len({i for i in deps[n] if vals[i] != 0.0
+                                       and i != case.get("wide")}) >= 2]
+        if joint:
+            n = rng.choice(joint[-3:])
+            src = sorted(i for i in deps[n] if vals[i] != 0.0 and i != case.get("wide"))
+            neg = [i for i in src if vals[i] < 0]
+            i = rng.choice(neg or src)
+            j = rng.choice([x for x in src if x != i])
+            rr = rng.choice([-1, 1]) * rng.uniform(0.15, 0.3)
+            rel = min(0.2, max(1e-6, errs[i] / abs(vals[i]) * 10 ** rng.uniform(-0.5, 0.5)))
+            ops.append(["setCorr", i, j, bits(rr)])
+            ops.append(["setRel", i, bits(rel)])
+            ops.append(["recalc", n])
+            ops.append(["read", n])
+            if rng.random() < 0.5:
+                ops.append(["setMethod", n, "monte-carlo"])
+                ops.append(["recalc", n])
+                ops.append(["read", n])
     return ops
 
 
@@ -142,6 +176,10 @@ def run_impl(q, case, np_seed=1, mc_size=50, string_forms=True):
                     meas[op[1]].error = unbits(op[2])
                     errs[op[1]] = unbits(op[2])
                     obs.append({"t": "ok"})
+                elif t == "setRel":
+                    meas[op[1]].relative_error = unbits(op[2])
+                    errs[op[1]] = abs(vals[op[1]]) * float(unbits(op[2]))
+                    obs.append({"t": "ok"})
                 elif t == "setCorr":
                     if k % 2:
                         q.set_correlation(meas[op[1]], meas[op[2]], unbits(op[3]))
@@ -155,8 +193,17 @@ def run_impl(q, case, np_seed=1, mc_size=50, string_forms=True):
                     obs.append({"t": "ok"})
                 elif t == "read":
                     d = objs[op[1]]
-                    obs.append({"t": "read", "v": float(d.value), "e": float(d.error),
-                                "method": d.error_method.value, "unit": d.unit})
+                    ob = {"t": "read", "v": float(d.value), "e": float(d.error),
+                          "method": d.error_method.value, "unit": d.unit}
+                    if ob["method"] == "monte-carlo":
+                        # the simulation the quantity keeps (public accessor; the default summary
+                        # of a simulation is the mean and the sample standard deviation)
+                        smp = np.asarray(d.mc.samples(), dtype=float)
+                        ob["n"] = int(smp.size)
+                        if smp.size >= 2:
+                            ob["smean"] = float(np.mean(smp))
+                            ob["sstd"] = float(np.std(smp, ddof=1))
+                    obs.append(ob)
                 elif t == "readDeriv":
                     d = objs[op[1]]
                     tgt = meas[op[2]] if op[2] < len(meas) else other
@@ -279,9 +326,18 @@ def _build_from_meas(q, case, meas):
 
 
 def model_line(case):
-    # a failed side computation is not an operation of the session state machine
-    ops = [["readDeriv", quantity_nodes(case)[0], 0] if o[0] in ("fault", "newGroup") else o
-           for o in case["ops_hist"]]
+    # a failed side computation is not an operation of the session state machine; a relative
+    # uncertainty r is the uncertainty |current central value| * r
+    ops = []
+    cur = [unbits(b) for b in case["vals"]]
+    for o in case["ops_hist"]:
+        if o[0] in ("fault", "newGroup"):
+            o = ["readDeriv", quantity_nodes(case)[0], 0]
+        elif o[0] == "setValue":
+            cur[o[1]] = unbits(o[2])
+        elif o[0] == "setRel":
+            o = ["setError", o[1], bits(abs(cur[o[1]]) * float(unbits(o[2])))]
+        ops.append(o)
     return {"cmd": "world", "nodes": exprgen.model_nodes(case["nodes"]), "vals": case["vals"],
             "errs": case["errs"], "rho": case["rho"], "ops": ops}
 
@@ -317,7 +373,7 @@ def judge(what, case, obs, mod):
                              "what": "{} raised {}".format(where, o["x"]), "input": hist_str(case),
                              "case": case, "clause": "valid request must not fail"})
             break
-        if op[0] in ("setValue", "setError", "setCorr", "resetCorr"):
+        if op[0] in ("setValue", "setError", "setRel", "setCorr", "resetCorr"):
             changed_since = True
         if op[0] == "read":
             want = "derivative" if m["t"] == "d" else "monte-carlo"
@@ -346,6 +402,19 @@ def judge(what, case, obs, mod):
                 if what == "c15" and op[1] in nested:
                     nontrivial = True
             else:
+                if "smean" in o and not (
+                        abs(o["v"] - o["smean"]) <= 1e-11 * abs(o["smean"]) + 1e-300 and
+                        abs(o["e"] - o["sstd"]) <= 1e-9 * abs(o["sstd"]) + 1e-300):
+                    failures.append({"signature": "{}:mc-read-not-the-simulation".format(what),
+                                     "oracle": "independent", "kind": "violation",
+                                     "what": "{}: the quantity reports by Monte Carlo but the pair it "
+                                             "returns ({}, {}) is not mean and standard deviation of "
+                                             "the simulation it keeps ({}, {}; {} draws)".format(
+                                                 where, o["v"], o["e"], o["smean"], o["sstd"], o["n"]),
+                                     "input": hist_str(case), "case": case, "op_index": k,
+                                     "clause": "reports results by the method selected"})
+                    model_failed = True
+                    continue
                 key = (op[1], m["s"])
                 pair = (bits(o["v"]), bits(o["e"]))
                 if key in tokens and tokens[key] != pair:
